@@ -36,10 +36,10 @@ from ..tlc import cfg
 NEEDS_EXT = True
 
 BOUNDS = {
-    "quick": dict(MaxF=2, Rows={0, 1, 2}, Rich=False, WDev=2, WDevSmall=1, CDev=1, HDev=1, MaxWrites=2, DeepAll=False),
-    "thorough": dict(MaxF=3, Rows={0, 1, 3}, Rich=True, WDev=2, WDevSmall=1, CDev=2, HDev=1, MaxWrites=3, DeepAll=False),
+    "quick": dict(MaxF=2, Rows={0, 1, 2}, Rich=False, WDev=2, WDevSmall=1, CDev=1, HDev=1, MaxWrites=2, HTables=4, DeepAll=False),
+    "thorough": dict(MaxF=3, Rows={0, 1, 3}, Rich=True, WDev=2, WDevSmall=1, CDev=1, HDev=1, MaxWrites=3, HTables=2, DeepAll=False),
 }
-SELFTEST = dict(MaxF=1, Rows={2}, Rich=False, WDev=1, WDevSmall=1, CDev=1, HDev=1, MaxWrites=1, DeepAll=True)
+SELFTEST = dict(MaxF=1, Rows={2}, Rich=False, WDev=1, WDevSmall=1, CDev=1, HDev=1, MaxWrites=1, HTables=4, DeepAll=True)
 TARGETS = ("obj", "name", "stdout", "page")
 INT_DTYPES = ("<i8", "<i4", ">i2", "u1", ">i8", "<i2")
 FLT_DTYPES = ("<f8", "<f4", ">f8", "<f8")
